@@ -124,6 +124,12 @@ func check(s Spec) h.Result {
 		off              int
 	}
 	var twins []twin
+	if len(s.Files) >= 2 && len(s.Files[0].To) == 1 && len(s.Files[1].To) == 1 && s.Files[0].To[0] == s.Files[1].Path && s.Files[1].To[0] == s.Files[0].Path {
+		cl = append(cl, "renames:two-files-trade-places")
+		if s.Files[0].Size == s.Files[1].Size && s.Files[0].Size > 4<<20 {
+			cl = append(cl, "renames:two-files->4MiB-of-equal-size-trade-places")
+		}
+	}
 	for i, f := range s.Files {
 		old = append(old, h.Entry{Path: f.Path, Kind: h.KFile, C: oldContent(i, f)})
 		if f.Twin && f.Size > 0 && s.Family != "edits" {
@@ -402,6 +408,16 @@ var prop = h.Prop[Spec]{
 						f.To = append(f.To, "copy/"+f.Path)
 					}
 				}
+			}
+		}
+		if s.Family == "renames" && len(s.Files) >= 2 && rapid.IntRange(0, 3).Draw(t, "swap-two-files") == 0 {
+			// two files trade places: each path keeps existing, with the other file's content
+			a, b := &s.Files[0], &s.Files[1]
+			a.To, b.To = []string{b.Path}, []string{a.Path}
+			if rapid.IntRange(0, 3).Draw(t, "swap-large-equal-sizes") == 0 {
+				// ... and they have the same size, beyond the largest data operation (4 MiB)
+				a.Size = 4<<20 + rapid.IntRange(1, 2<<20).Draw(t, "swap-size")
+				b.Size = a.Size
 			}
 		}
 		s.SigFile = rapid.IntRange(0, 3).Draw(t, "old-signature-from-stream") == 0
